@@ -1,3 +1,4 @@
+import contextlib
 from abc import ABCMeta, abstractmethod
 from collections import namedtuple
 from typing import Any, Callable, Dict, List, Type
@@ -5,7 +6,11 @@ from typing import Any, Callable, Dict, List, Type
 from spec_classes.errors import FrozenInstanceError
 from spec_classes.methods.base import AttrMethodDescriptor
 from spec_classes.types import MISSING, Attr
-from spec_classes.utils.mutation import mutate_value, protect_via_deepcopy
+from spec_classes.utils.mutation import (
+    _rollback_on_error,
+    mutate_value,
+    protect_via_deepcopy,
+)
 from spec_classes.utils.type_checking import (
     check_type,
     type_instantiate,
@@ -137,19 +142,27 @@ class CollectionAttrMutator(metaclass=ABCMeta):
             index, old_item = extractor(
                 value_or_index, raise_if_missing=require_pre_existent
             )
-            new_item = mutate_value(
-                old_value=old_item,
-                new_value=new_item,
-                prepare=self.prepare_item,
-                attrs=attrs,
-                constructor=self.attr_spec.item_constructor,
-                expected_type=self.attr_spec.item_type,
-                transform=transform,
-                attr_transforms=attr_transforms,
-                replace=replace,
-                inplace=False,  # Although we've already copied, index lookups may depend on the old value.
-            )
-            inserter(index, new_item)
+            # Items of `do_not_copy` classes are edited in place (they cannot
+            # be copied); if storing the result then fails, undo the edit.
+            item_metadata = getattr(old_item, "__spec_class__", None)
+            with (
+                _rollback_on_error(old_item)
+                if item_metadata and item_metadata.do_not_copy
+                else contextlib.nullcontext()
+            ):
+                new_item = mutate_value(
+                    old_value=old_item,
+                    new_value=new_item,
+                    prepare=self.prepare_item,
+                    attrs=attrs,
+                    constructor=self.attr_spec.item_constructor,
+                    expected_type=self.attr_spec.item_type,
+                    transform=transform,
+                    attr_transforms=attr_transforms,
+                    replace=replace,
+                    inplace=False,  # Although we've already copied, index lookups may depend on the old value.
+                )
+                inserter(index, new_item)
             return self
         except (TypeError, IndexError, KeyError, ValueError) as e:
             e.args = (
